@@ -330,6 +330,43 @@ func runLexer(r *core.Run, sp lexSpec, tasks *[]*engTask) {
 		r.SetRule("R-SPELL")
 		spell = sp.spell(r)
 	}
+	// fields by role, not by name: the lexer's own error is its field of type error; the tag-mode flag is the
+	// bool field that Next itself reads to decide how to continue
+	if recv := fn.Signature.Recv(); recv != nil {
+		if st, ok := derefType(recv.Type()).Underlying().(*types.Struct); ok {
+			tp := sp.rel + "." + sp.typ
+			if sp.errPath != "" {
+				var errs []string
+				for i := 0; i < st.NumFields(); i++ {
+					if types.Identical(st.Field(i).Type(), types.Universe.Lookup("error").Type()) {
+						errs = append(errs, st.Field(i).Name())
+					}
+				}
+				if len(errs) == 1 {
+					sp.errPath = tp + "." + errs[0]
+				}
+			}
+			if sp.inTagPath != "" {
+				loaded := map[string]bool{}
+				for _, b := range fn.Blocks {
+					for _, in := range b.Instrs {
+						if u, ok := in.(*ssa.UnOp); ok && u.Op == token.MUL {
+							if fa, ok := u.X.(*ssa.FieldAddr); ok && fa.X == ssa.Value(fn.Params[0]) {
+								if bt, ok := u.Type().Underlying().(*types.Basic); ok && bt.Kind() == types.Bool {
+									loaded[fieldName(fa.X.Type(), fa.Field)] = true
+								}
+							}
+						}
+					}
+				}
+				if len(loaded) == 1 {
+					for f := range loaded {
+						sp.inTagPath = tp + "." + f
+					}
+				}
+			}
+		}
+	}
 	errTok := int64(0)
 	add := func(e *Engine, run func()) { *tasks = append(*tasks, &engTask{e: e, run: run}) }
 
